@@ -86,6 +86,10 @@ package dstutil
 //@ ensures cursor_restored: a.cursor.parent == old(a.cursor.parent) && a.cursor.name == old(a.cursor.name) && a.cursor.iter == old(a.cursor.iter) && a.cursor.node == old(a.cursor.node)
 //@ ensures unvisited_kept: iter != nil ==> 0 <= iter.index + iter.step && rlen(parent, name) - (iter.index + iter.step) == old(rlen(parent, name) - (iter.index + iter.step)) && (forall k int :: 0 <= k && k < rlen(parent, name) - (iter.index + iter.step) ==> rat(parent, name, iter.index + iter.step + k) == old(rat(parent, name, iter.index + iter.step + k)))
 
+//@ case Package
+//@ loop 1 invariant cursor_set: a.cursor.parent == parent && a.cursor.name == $arg_name && a.cursor.iter == iter && a.cursor.node == $arg_n
+//@ loop 2 invariant cursor_set: a.cursor.parent == parent && a.cursor.name == $arg_name && a.cursor.iter == iter && a.cursor.node == $arg_n
+
 //@ func (a *application) applyList
 //@ requires parent_not_nil: typeof(parent) != 0 && ref(parent) != 0
 //@ modifies allbut(heap(application.pre); heap(application.post))
